@@ -875,7 +875,7 @@ func c06CloseGuard(c *Ctx) {
 		})
 	}
 	desTrueEdge := func(in ssa.Instruction) bool {
-		return hasFact(in.Block(), func(v ssa.Value, truth bool) bool { return truth && isFieldLoad(v, fDes) })
+		return hasFact(in.Block(), func(v ssa.Value, truth bool) bool { return factFlagSet(v, truth, fDes) })
 	}
 	closeCalls := func(fn *ssa.Function) []ssa.CallInstruction {
 		var out []ssa.CallInstruction
@@ -895,8 +895,8 @@ func c06CloseGuard(c *Ctx) {
 		k := fmt.Sprintf("%s|close#%d", fnName(destroy), i)
 		c.Check(rule, k+"|refCount==0", refZeroEdge(ci), ci.Pos(), "the backend is closed by Destroy only when no reader holds it")
 		after := false
-		for _, st := range storesToField(destroy, fDes) {
-			if k, ok := st.Val.(*ssa.Const); ok && k.Value != nil && k.Value.String() == "true" && instrDominates(st, ci) {
+		for _, st := range flagSetters(destroy, fDes) {
+			if instrDominates(st, ci) {
 				after = true
 			}
 		}
@@ -906,8 +906,8 @@ func c06CloseGuard(c *Ctx) {
 	sets := true
 	for _, ret := range returnsOf(destroy) {
 		okRet := false
-		for _, st := range storesToField(destroy, fDes) {
-			if k, ok := st.Val.(*ssa.Const); ok && k.Value != nil && k.Value.String() == "true" && instrDominates(st, ret) {
+		for _, st := range flagSetters(destroy, fDes) {
+			if instrDominates(st, ret) {
 				okRet = true
 			}
 		}
@@ -1219,7 +1219,7 @@ func c06ClosedState(c *Ctx) {
 	// form (a), part 1
 	a1 := false
 	for _, st := range storesToField(nr, fRef) {
-		if hasFact(st.Block(), func(v ssa.Value, truth bool) bool { return !truth && isFieldLoad(v, fDes) }) {
+		if hasFact(st.Block(), func(v ssa.Value, truth bool) bool { return factFlagWasClear(v, truth, fDes) }) {
 			a1 = true
 		}
 	}
@@ -1229,7 +1229,7 @@ func c06ClosedState(c *Ctx) {
 		if !isDBIMethodInvoke(c, ci.Common(), "Close") {
 			continue
 		}
-		if hasFact(ci.Block(), func(v ssa.Value, truth bool) bool { return !truth && isFieldLoad(v, fDes) }) {
+		if hasFact(ci.Block(), func(v ssa.Value, truth bool) bool { return factFlagWasClear(v, truth, fDes) }) {
 			a2 = true
 		}
 	}
